@@ -387,6 +387,15 @@ OwnWritesOnly ==
                            THEN {[op |-> "Delete", p |-> cur.p, k |-> cur.pos, v |-> 0]} ELSE {}
           IN \E w \in Writes(txtree["w"]) \cup viaCursor : txtree'["w"] = ApplyW(txtree["w"], w).t ]_vars
 
+\* A writer-only generator for simulation: sequences of read-write transactions, all committed.
+\* Histories like "put k, commit, delete k, commit, put k, commit" return to an abstract state seen
+\* before, so exhaustive exploration (which keeps one path per state) never continues them, while the
+\* implementation's write cache still holds traces of them (tombstones, flushed or not).
+WriterNext == \/ (isopen /\ "w" \notin txopen /\ Begin("w"))
+              \/ ("w" \in txopen /\ \E w \in Writes(txtree["w"]) : TxWrite("w", w))
+              \/ Commit
+WriterSpec == Init /\ [][WriterNext]_vars
+
 Emit == PrintT(<<"TRACE", ToJson(log')>>)
 EmitLast == nops' = MaxOps => PrintT(<<"TRACE", ToJson(log')>>)
 =============================================================================
